@@ -247,6 +247,57 @@ def gen_exc_text(tier, seed):
     return cases
 
 
+def gen_after_exception(tier, seed):
+    """After a client exception the Connection.Close it queued is the last frame ever sent: flushed
+    completely / partly / not at all, then submissions on one or two channels, a client close, frames
+    from the server, transport events in every order."""
+    import itertools
+    rng = Rng(seed + 7007)
+    cases = []
+    n = 0
+    excs = [lambda g: mg.not_allowed(rng, 1), lambda g: mg.not_implemented(rng, 2), lambda g: mg.header(0, 3), lambda g: mg.connection_on_channel(rng, 1)]
+    flushes = ["full", "partial", "none"]
+    afters = ["send1", "send2", "close0", "frame", "write", "stream-w", "stream-rw"]
+    for ei, mk in enumerate(excs):
+        for fl in flushes:
+            for seq in itertools.product(afters, repeat=2):
+                if tier == "quick" and (n + ei) % 2:
+                    n += 1
+                    continue
+                n += 1
+                g = Gen(rng, chmax=2, bound=4, via_stream=0.0)
+                h1 = g.open_channel(1); g.bind_opened(h1, 1)
+                h2 = g.open_channel(2); g.bind_opened(h2, 2)
+                g.op("wscript w:1000000"); g.op("write")
+                g.feed([mk(g)], direct=True)
+                g.op("dump")
+                if fl == "full":
+                    g.op("wscript w:1000000"); g.op("ev stream w")
+                elif fl == "partial":
+                    g.op("wscript w:5 wb"); g.op("write")
+                g.op("dump")
+                for a in seq:
+                    if a == "send1":
+                        g.op("send %s send %s" % (h1, hx(amqp.body(1, b"late-1")))); g.op("ev 1")
+                    elif a == "send2":
+                        g.op("send %s send %s" % (h2, hx(amqp.client_only_samples(2)["basic.qos"]))); g.op("ev 2")
+                    elif a == "close0":
+                        g.op("send 0 close0 %s" % hx(amqp.connection_close(200, "goodbye"))); g.op("ev 0")
+                    elif a == "frame":
+                        g.feed([mg.heartbeat()], direct=True)
+                    elif a == "write":
+                        g.op("wscript w:1000000"); g.op("write")
+                    elif a == "stream-w":
+                        g.op("wscript w:3 w:1000000"); g.op("ev stream w")
+                    else:
+                        g.op("wscript w:1000000"); g.op("ev stream rw")
+                    g.op("dump")
+                g.op("wscript w:1000000"); g.op("write"); g.op("dump")
+                g.finish()
+                cases.append(g.case("e%d" % n))
+    return cases
+
+
 def suites(tier, seed):
     return [
         Suite("violations-random", "machine", lambda: gen_random(tier, seed), monitor=monitor, nontrivial=nontrivial, canon=mg.canon_nondet, candidate_ok=mg.candidate_ok,
@@ -254,6 +305,8 @@ def suites(tier, seed):
         Suite("violations-exhaustive", "machine", lambda: gen_exhaustive(tier, seed), monitor=monitor, nontrivial=nontrivial, exhaustive=(tier != "quick"),
               rule="sequences of length %d over a 29-shape alphabet covering every arm of the dispatch, on channel {open, 0, never opened}, from 4 collector states (idle / consumer / content method seen / body half received); %s" % (
                   2 if tier == "quick" else 3, "every 6th combination" if tier == "quick" else "ALL for the open channel, every 5th for the others")),
+        Suite("after-exception", "machine", lambda: gen_after_exception(tier, seed), monitor=monitor, nontrivial=lambda c, il: True, canon=mg.canon_nondet, candidate_ok=mg.candidate_ok, exhaustive=(tier != "quick"),
+              rule="4 kinds of client exception x its Connection.Close flushed completely / 5 bytes / not at all x EVERY pair of later events from {submission on channel 1, call on channel 2, client close, server frame, write, writable event, readable+writable event} (quick: every second): the exception's Close stays the last frame queued and written"),
         Suite("exception-text", "machine", lambda: gen_exc_text(tier, seed), monitor=monitor, nontrivial=lambda c, il: True, canon=mg.canon_nondet, candidate_ok=mg.candidate_ok,
               rule="client-only methods sent by the server whose string fields are 'a'*pad + c*k for c of 1/2/3/4 UTF-8 bytes, pad 0..3 (0..7 thorough), k chosen so the Debug text of the frame crosses byte 255 at every alignment inside a character: the exception's Connection.Close must be well-formed, <= 255 bytes of text, cut on a character boundary"),
         Suite("large-contents", "machine", lambda: [c for c in __import__("props.c03", fromlist=["x"]).gen_large(tier, seed) if int(c.cid.split("_")[0][1:]) >= 2 ** 20 - 1], monitor=monitor, nontrivial=lambda c, il: True, canon=mg.canon_nondet, shards=4, shrink=False,
